@@ -191,8 +191,10 @@ def histStep (st : HState) (op : String) (a : List String) : HState × String :=
     match AL.get st.repo.staged (arg id) with
     | none => (st, "err:general")
     | some o =>
-      let keep := parseKeep o.inv keepSpec
-      if !o.inv.keepAdmissible keep then (st, "inadmissible-dedup-choice") else
+      -- an observed manifest that is not a dedup outcome means the operation failed before
+      -- `dedup_head`; the model then runs with its default choice (manifests are compared afterwards)
+      let keep0 := parseKeep o.inv keepSpec
+      let keep := if o.inv.keepAdmissible keep0 then keep0 else o.inv.defaultKeep
       let (res, r) := commit st.repo (arg id) (parseMeta user addr msg created) keep (hasRoot == "1")
       ({ st with repo := r }, outcome res)
   | "upgrade", [id, spec, hasLayout, user, addr, msg, created, keepSpec] =>
@@ -200,8 +202,8 @@ def histStep (st : HState) (op : String) (a : List String) : HState × String :=
     match getOrCreateStaged r0 (arg id) (now st) with
     | .error e => (st, "err:" ++ errName e)
     | .ok (_, o) =>
-      let keep := parseKeep o.inv keepSpec
-      if !o.inv.keepAdmissible keep then (st, "inadmissible-dedup-choice") else
+      let keep0 := parseKeep o.inv keepSpec
+      let keep := if o.inv.keepAdmissible keep0 then keep0 else o.inv.defaultKeep
       let (res, r) := upgradeObject r0 (arg id) ((parseSpec spec).getD .v1_1) (parseMeta user addr msg created) keep (hasLayout == "1") (now st)
       ({ st with repo := r }, outcome res)
   | "upgraderepo", [spec] =>
